@@ -157,9 +157,12 @@ fn c16_write_bytes() {
     kani::cover!(data[j] != 0, "non-zero byte");
 }
 
-/// CPU context (1232 bytes): only position/size/prefix laws and a witness byte.
+/// CPU context (1232 bytes) through the REAL derived serializer: position/size/prefix laws and
+/// every field the crate fills, at the AMD64 CONTEXT offsets (WinNT.h).  This is also what
+/// justifies `env::stub_context_try_into_ctx` (the layout model used by the thread-list harnesses).
 #[kani::proof]
 #[kani::unwind(4)]
+#[kani::stub(std::vec::Vec::resize, crate::verif::env::stub_vec_resize)]
 fn c16_context() {
     const SIZE: usize = 1232;
     assert_eq!(RawContextCPU::size_with(&LE), SIZE);
@@ -167,26 +170,66 @@ fn c16_context() {
     let pre: [u8; PRE] = kani::any();
     buf.write_all(&pre);
     let mut ctx = RawContextCPU::default();
-    ctx.rip = kani::any();
-    ctx.rsp = kani::any();
-    ctx.r15 = kani::any();
-    ctx.cs = kani::any();
+    let regs: [u64; 23] = kani::any();
+    ctx.dr0 = regs[0];
+    ctx.dr1 = regs[1];
+    ctx.dr2 = regs[2];
+    ctx.dr3 = regs[3];
+    ctx.dr6 = regs[4];
+    ctx.dr7 = regs[5];
+    ctx.rax = regs[6];
+    ctx.rcx = regs[7];
+    ctx.rdx = regs[8];
+    ctx.rbx = regs[9];
+    ctx.rsp = regs[10];
+    ctx.rbp = regs[11];
+    ctx.rsi = regs[12];
+    ctx.rdi = regs[13];
+    ctx.r8 = regs[14];
+    ctx.r9 = regs[15];
+    ctx.r10 = regs[16];
+    ctx.r11 = regs[17];
+    ctx.r12 = regs[18];
+    ctx.r13 = regs[19];
+    ctx.r14 = regs[20];
+    ctx.r15 = regs[21];
+    ctx.rip = regs[22];
+    let segs: [u16; 6] = kani::any();
+    ctx.cs = segs[0];
+    ctx.ds = segs[1];
+    ctx.es = segs[2];
+    ctx.fs = segs[3];
+    ctx.gs = segs[4];
+    ctx.ss = segs[5];
+    ctx.context_flags = kani::any();
+    ctx.mx_csr = kani::any();
     ctx.eflags = kani::any();
-    let (rip, rsp, r15, cs, efl) = (ctx.rip, ctx.rsp, ctx.r15, ctx.cs, ctx.eflags);
+    let (cf, mx, efl) = (ctx.context_flags, ctx.mx_csr, ctx.eflags);
+    let fsi: usize = kani::any();
+    kani::assume(fsi < 512);
+    let fsv: u8 = kani::any();
+    ctx.float_save[fsi] = fsv;
     let w = MemoryWriter::<RawContextCPU>::alloc_with_val(&mut buf, ctx).unwrap();
     assert_eq!(w.position as usize, PRE);
     assert_eq!(w.location().data_size as usize, SIZE);
     assert_eq!(buf.len(), PRE + SIZE);
-    // AMD64 CONTEXT layout (WinNT.h): ContextFlags 0x30, SegCs 0x38, EFlags 0x44, Rsp 0x98, R15 0xf0, Rip 0xf8
-    assert_eq!(rd_u16(&buf, PRE + 0x38), cs);
+    assert_eq!(rd_u32(&buf, PRE + 0x30), cf);
+    assert_eq!(rd_u32(&buf, PRE + 0x34), mx);
+    let k: usize = kani::any();
+    kani::assume(k < 6);
+    assert_eq!(rd_u16(&buf, PRE + 0x38 + 2 * k), segs[k], "segment selector k at 0x38 + 2k");
     assert_eq!(rd_u32(&buf, PRE + 0x44), efl);
-    assert_eq!(rd_u64(&buf, PRE + 0x98), rsp);
-    assert_eq!(rd_u64(&buf, PRE + 0xf0), r15);
-    assert_eq!(rd_u64(&buf, PRE + 0xf8), rip);
+    let r: usize = kani::any();
+    kani::assume(r < 23);
+    assert_eq!(rd_u64(&buf, PRE + 0x48 + 8 * r), regs[r], "Dr0-3,6,7, Rax..R15, Rip at 0x48 + 8r");
+    assert_eq!(buf[PRE + 0x100 + fsi], fsv, "FltSave at 0x100");
+    let z: usize = kani::any();
+    kani::assume(z < 0x30 || (z >= 0x300 && z < SIZE));
+    assert_eq!(buf[PRE + z], 0, "home slots and vector/debug-control area stay zero");
     let i: usize = kani::any();
     kani::assume(i < PRE);
     assert_eq!(buf[i], pre[i]);
-    kani::cover!(rip != 0 && rsp != rip, "non-trivial registers");
+    kani::cover!(regs[22] != 0 && regs[10] != regs[22] && fsv != 0, "non-trivial registers");
 }
 
 /// Strings: u32 byte length + UTF-16LE units that decode back to the text.
@@ -257,3 +300,4 @@ fn c16_string_empty() {
     assert_eq!(rd_u32(&buf, PRE), 0);
     kani::cover!(pre[0] != 0, "non-zero prefix");
 }
+
